@@ -209,7 +209,11 @@ func envFloat(name string, def float64) float64 {
 
 func loadKnown() knownFile {
 	var kf knownFile
-	b, err := os.ReadFile(filepath.Join(verifDir(), "known_findings.json"))
+	path := filepath.Join(verifDir(), "known_findings.json")
+	if p := os.Getenv("VERIF_KNOWN_FILE"); p != "" { // (for testing the mechanism itself)
+		path = p
+	}
+	b, err := os.ReadFile(path)
 	if err == nil {
 		json.Unmarshal(b, &kf)
 	}
